@@ -82,7 +82,7 @@ def _with_common(d, meta=True):
     base['num'] = NUMS
     # 'assign': constructed from other values, then every field assigned
     base['build'] = st.sampled_from(['direct', 'direct', 'direct', 'direct',
-                                     'assign', 'assign', 'reuse'])
+                                     'assign', 'assign', 'reuse', 'inplace'])
     return st.fixed_dictionaries(base)
 
 
